@@ -157,9 +157,12 @@ CLAIMED["C15"] = _xh(
     "switch combinations; value and choice forms accept a value iff their declared type / choice list / None rule admits "
     "it; Type/Value/Optional/Required/Shape validators are exact; EnforcerPool, Parameter and "
     "InputValidation.validate_data give history-independent verdicts and a rejected Parameter assignment leaves the "
-    "stored value unchanged. Values: None, bool, small ints, strings of length <= 1 (alphabet of 8 values for "
-    "set-membership conditions).",
+    "stored value unchanged; a rejected FormParameter member assignment leaves the form unchanged. Values: None, bool, small "
+    "ints, strings of length <= 1 (alphabet of 8 values for set-membership conditions). Association and property-group-type "
+    "validators: every (referenced parent, value, entity-or-identifier, declared type) combination on a three-level tree is "
+    "one explored path of the real validators.",
 )
+CLAIMED["C15"]["engine"] = "xh+symx"
 
 CLAIMED["C14"] = _xh(
     "C14",
